@@ -372,6 +372,13 @@ def gen_nested_lines(r, items, depth, paths, path=()):
             continue
         ind = b"  " * depth + rws(r, 2, True) if r.random() < 0.3 else b"  " * depth
         kw = rcase(r, k.encode()) if r.random() < 0.3 else k.encode()
+        if isinstance(v, list) and depth == 0 and r.random() < 0.25:
+            # more than two instances of the same block keyword (the key_lookup loop of the parent)
+            for _ in range(r.randint(1, 2)):
+                extra = gen_nested_lines(r, v, depth + 1, [], path + (k,))
+                lines.append(ind + kw + b" {")
+                lines += extra
+                lines.append(b"  " * depth + b"}")
         if isinstance(v, list):
             inner = gen_nested_lines(r, v, depth + 1, [], path + (k,))
             if inner and len(inner) == 1 and b"{" not in inner[0] and r.random() < 0.4:
